@@ -760,7 +760,7 @@ extern "C" void *__wrap_mremap(void *old, size_t old_len, size_t new_len, int fl
     errno = EFAULT;
     return MAP_FAILED;
   }
-  if (old_len != is->req_len) {
+  if (((old_len + PAGE - 1) & ~(PAGE - 1)) != ((is->req_len + PAGE - 1) & ~(PAGE - 1))) {  // the kernel rounds to pages, too
     sim_reject("mremap: old length differs from the mapping's length");
     errno = EINVAL;
     return MAP_FAILED;
